@@ -28,6 +28,21 @@ fn minmax(ps: &[Uint128]) -> (SInt, SInt) {
     (lo, hi)
 }
 
+thread_local! {
+    /// fluctuation limit of the vAMM-alone deployments in thousandths (0 = none)
+    static FLUCT_PM: std::cell::Cell<u128> = std::cell::Cell::new(0);
+}
+
+/// the schedule on a vAMM with a per-block price band of `pm` thousandths (the swaps are sent with
+/// can_go_over_fluctuation, as the engine's closing trades are: a block's later trade may leave it)
+fn with_band(pm: u128, f: impl Fn()) -> impl Fn() {
+    move || {
+        FLUCT_PM.with(|c| c.set(pm));
+        f();
+        FLUCT_PM.with(|c| c.set(0));
+    }
+}
+
 fn vamm_twap(blocks: Vec<Block>, intervals: Vec<u64>, tail: u64) -> impl Fn() {
     vamm_twap_ns(blocks, intervals, tail, vec![])
 }
@@ -38,6 +53,7 @@ fn vamm_twap_ns(blocks: Vec<Block>, intervals: Vec<u64>, tail: u64, nanos: Vec<u
         let mut cfg = Cfg::base(false, 9);
         cfg.vamm_engine_is_owner = true;
         let d = cfg.d();
+        cfg.fluct = Uint128::new(d / 1000 * FLUCT_PM.with(|c| c.get()));
         let mut w = deploy_or_drop(cfg);
         symrt::set_full(true);
         // segments: (start time, end-of-block spot price)
@@ -288,6 +304,9 @@ pub fn scenarios(seed: u64) -> Vec<Scenario> {
     for (name, blocks, ivs, tail) in scheds {
         let tier = if name == "six-blocks" || name == "busy-400-blocks" { Tier::Thorough } else { Tier::Quick };
         v.push(sc("C18", tier, &format!("c18.vamm.{}", name), dv, 400, 120, vamm_twap(blocks.clone(), ivs.clone(), tail)));
+        if name == "spike-inside-block" || name == "same-block-query" || name == "two-blocks" {
+            v.push(sc("C18", Tier::Quick, &format!("c18.vamm.{}.band5", name), "as above on a vAMM with a 5 % per-block price band (several trades per block, the later ones allowed to leave the band)", 400, 120, with_band(50, vamm_twap(blocks.clone(), ivs.clone(), tail))));
+        }
         // the same schedule with block times that are not aligned to whole seconds (the query
         // block's sub-second part smaller than that of the last trading block)
         if name == "two-blocks" || name == "unchanged" || name == "long-gaps" {
